@@ -155,7 +155,7 @@ func (x *actorSystem) Spawn(ctx context.Context, name string, actor Actor, opts 
 			}
 		}
 
-		pid, err := x.configPID(ctx, name, actor, opts...)
+		pid, err := x.configPID(ctx, name, actor, append(opts[:len(opts):len(opts)], postStartOnAttach())...)
 		if err != nil {
 			return nil, err
 		}
@@ -210,7 +210,7 @@ func (x *actorSystem) SpawnNamedFromFunc(ctx context.Context, name string, recei
 			}
 		}
 
-		pid, err := x.configPID(ctx, name, actor, WithMailbox(config.mailbox), WithRelocationDisabled())
+		pid, err := x.configPID(ctx, name, actor, WithMailbox(config.mailbox), WithRelocationDisabled(), postStartOnAttach())
 		if err != nil {
 			return nil, err
 		}
@@ -880,6 +880,7 @@ func (x *actorSystem) spawnSingletonOnLocal(ctx context.Context, name string, ac
 			}),
 			WithRole(singletonRole),
 			WithSupervisor(singletonSupervisor),
+			postStartOnAttach(),
 		)
 		if err != nil {
 			return nil, err
